@@ -7,6 +7,7 @@ Three kinds of cases:
   the Beta and Bernoulli outcomes (every value of the auxiliary variable, both mixture components).
 * `update`: `phyclone.run.update_concentration_value` on a random tree with outliers.
 * `chain`: a short real `run_phyclone_chain` with the concentration update on (or off).
+* `invariance`: end-to-end statistical oracle — exact draws from p(alpha | K, n), one real update each, KS test.
 """
 import contextlib
 import io
@@ -41,13 +42,14 @@ EXPLANATION = (
     "distribution whose parameters it is handed.  All exactness statements are for the UNCENSORED Gamma draw: the code floors "
     "the draw at 1e-10, which is a known finding (F12) — with the run command's prior a=b=0.01 and one clone about 80% of the "
     "conditional mass lies below the floor.  The tie to the code is the recorded-parameter correspondence of this run.")
-RULE = ("params: a, b, old alpha log-uniform in [1e-2, 1e2] (plus the run command's a=b=0.01), 1 <= K <= n <= 60 and K = 0; "
+RULE = ("params: a, b, old alpha log-uniform in [1e-2, 1e2] (plus the run command's a=b=0.01), 1 <= K <= n <= 60 (thorough also n up to 1e6, a, b in [1e-4, 1e4]) and K = 0; "
         "the parameters recorded at beta.rvs / bernoulli.rvs / gamma.rvs inside the real sample() are compared (relative 1e-12) "
         "with the Lean model evaluated at the recorded eta and Bernoulli outcome and with the formulas of the property text; "
         "forced: eta prescribed in {1e-300 .. 1-1e-16, 1.0} and both Bernoulli outcomes; update: random forests with outliers "
-        "(1..9 data points), K, n passed by update_concentration_value vs model kn vs direct count on the graph, prior.alpha / "
-        "log_alpha / next log_p and log_p_one vs a fresh distribution; chain: run_phyclone_chain on 3..5 points, every trace entry "
-        "recomputed.  Non-trivial: K >= 1 (mixture branch) for params/forced, a tree with >= 1 clone for update, a chain with "
+        "(1..9 data points quick / 1..16 thorough), K, n passed by update_concentration_value vs model kn vs direct count on the graph, prior.alpha / "
+        "log_alpha / next log_p and log_p_one vs a fresh distribution; chain: run_phyclone_chain on 2..4 points (2..7 thorough), every trace entry "
+        "recomputed; invariance: N exact draws from p(alpha | K, n) (numerical inverse CDF), one real update each, Kolmogorov-Smirnov "
+        "against the same law (threshold sqrt(N) D > 2.6).  Non-trivial: K >= 1 (mixture branch) for params/forced, a tree with >= 1 clone for update, a chain with "
         "the update on.")
 TRUSTED = ["scipy.stats.beta / gamma / bernoulli are trusted to sample from the distribution whose parameters they are handed "
            "(only the parameters are observed); np.log, IEEE-754 arithmetic",
@@ -71,12 +73,13 @@ class _Proxy:
         self._name, self._real, self._log, self._forced = name, real, log, forced
 
     def rvs(self, *args, **kw):
+        rec = {"dist": self._name, "args": args, "kw": kw, "value": None}
+        self._log.append(rec)  # recorded before the draw, so a rejected parameter is still seen
         if self._forced is not None and self._name in self._forced:
-            val = self._forced[self._name]
+            rec["value"] = self._forced[self._name]
         else:
-            val = self._real.rvs(*args, **kw)
-        self._log.append({"dist": self._name, "args": args, "kw": kw, "value": val})
-        return val
+            rec["value"] = self._real.rvs(*args, **kw)
+        return rec["value"]
 
     def __getattr__(self, item):  # anything else the code might use goes to scipy, and is recorded as unexpected
         self._log.append({"dist": self._name, "attr": item})
@@ -131,7 +134,7 @@ def cases(tier, rnd):
     # pinned: the prior the run command wires (setup_samplers), single clone -> exhibits known finding F12
     out.append({"kind": "forced", "a": 0.01, "b": 0.01, "alpha": 1.0, "K": 1, "n": 10, "eta": 0.5, "bern": 0, "g": None, "seed": 1})
     out.append({"kind": "params", "a": 0.01, "b": 0.01, "alpha": 1.0, "K": 1, "n": 10, "seed": 12345})
-    n_par = 150 if tier == "quick" else 3000
+    n_par = 150 if tier == "quick" else 20000
     for i in range(n_par):
         n = rnd.choice([1, 2, 3, 5, 8, 13, 60]) if i % 3 else rnd.randint(1, 60)
         K = rnd.randint(1, n) if i % 11 else 0
@@ -140,9 +143,13 @@ def cases(tier, rnd):
         else:
             a, b = _logu(rnd, 1e-2, 1e2), _logu(rnd, 1e-2, 1e2)
         alpha = _logu(rnd, 1e-2, 1e2) if i % 13 else FLOOR
+        if tier == "thorough" and i % 5 == 0:  # far corners
+            n = rnd.choice([1000, 10 ** 5, 10 ** 6])
+            K = rnd.randint(1, n) if i % 2 else rnd.randint(1, 30)
+            a, b, alpha = _logu(rnd, 1e-4, 1e4), _logu(rnd, 1e-4, 1e4), _logu(rnd, 1e-6, 1e4)
         out.append({"kind": "params", "a": a, "b": b, "alpha": alpha, "K": K, "n": n if K else rnd.choice([0, n]), "seed": rnd.randrange(1 << 30)})
     etas = [1e-300, 1e-12, 0.003, 0.25, 0.5, 0.9, 1 - 1e-9, 1 - 2.0 ** -53, 1.0]
-    n_forced = 40 if tier == "quick" else 600
+    n_forced = 40 if tier == "quick" else 4000
     for i in range(n_forced):
         n = rnd.randint(1, 40)
         K = rnd.randint(1, n)
@@ -150,22 +157,26 @@ def cases(tier, rnd):
         g = [None, 1e-11, 0.0, FLOOR, 3.5][i % 5]
         out.append({"kind": "forced", "a": _logu(rnd, 1e-2, 1e2), "b": _logu(rnd, 1e-2, 1e2), "alpha": _logu(rnd, 1e-3, 1e3),
                     "K": K, "n": n, "eta": eta, "bern": (i // 2) % 2, "g": g, "seed": rnd.randrange(1 << 30)})
-    n_upd = 60 if tier == "quick" else 1200
+    n_upd = 60 if tier == "quick" else 8000
     for i in range(n_upd):
-        n = rnd.randint(1, 9)
+        n = rnd.randint(1, 9 if tier == "quick" else 16)
         forest, outs = random_canon_tree(rnd, n, outliers=(i % 3 != 0))
         if i % 10 == 9:
             forest, outs = [], list(range(n))  # all data points outliers: K = 0
         ds = gen_dataset(rnd, n, S=rnd.randint(1, 2), G=rnd.randint(2, 5), bits=3, outlier_prob=Fraction(1, rnd.choice([5, 10, 100])) if outs or i % 2 else Fraction(0))
         out.append({"kind": "update", "data": ds.to_json(), "forest": forest, "outs": outs, "alpha": _logu(rnd, 1e-2, 1e2),
                     "a": _logu(rnd, 1e-1, 1e1), "b": _logu(rnd, 1e-1, 1e1), "seed": rnd.randrange(1 << 30), "twice": i % 2 == 0})
-    n_chain = 6 if tier == "quick" else 60
+    for i in range(1 if tier == "quick" else 60):
+        n = rnd.choice([3, 6, 15, 40])
+        out.append({"kind": "invariance", "a": rnd.choice([1.0, 2.0, 3.5]), "b": rnd.choice([0.5, 1.0, 3.0]), "K": rnd.randint(1, min(n, 6)), "n": n,
+                    "N": 2500 if tier == "quick" else 10000, "seed": rnd.randrange(1 << 30)})
+    n_chain = 6 if tier == "quick" else 600
     for i in range(n_chain):
-        n = rnd.randint(2, 5 if tier == "thorough" else 4)
+        n = rnd.randint(2, 7 if tier == "thorough" else 4)
         op = Fraction(0) if i % 2 else Fraction(1, 10)
         ds = gen_dataset(rnd, n, S=1, G=rnd.randint(3, 5), bits=3, outlier_prob=op)
         out.append({"kind": "chain", "data": ds.to_json(), "update": i % 5 != 4, "alpha0": rnd.choice([1.0, 0.3, 2.5]),
-                    "iters": rnd.randint(4, 8 if tier == "quick" else 14), "thin": rnd.choice([1, 1, 2, 3]), "burnin": rnd.choice([0, 1]),
+                    "iters": rnd.randint(4, 8 if tier == "quick" else 25), "thin": rnd.choice([1, 1, 2, 3]), "burnin": rnd.choice([0, 1]),
                     "particles": rnd.randint(2, 4), "proposal": rnd.choice(["bootstrap", "semi-adapted", "fully-adapted"]),
                     "subtree": rnd.choice([0.0, 0.3]), "seed": rnd.randrange(1 << 30)})
     return out
@@ -178,6 +189,8 @@ def check(ctx, case):
         return check_sample(ctx, case)
     if kind == "update":
         return check_update(ctx, case)
+    if kind == "invariance":
+        return check_invariance(ctx, case)
     return check_chain(ctx, case)
 
 
@@ -255,8 +268,8 @@ def judge_sample(ctx, case, a, b, alpha, K, n, log, ret, rng, model=True, tag=""
         ctx.stat("density_grid_checked")
     # returned value: the draw itself; the 1e-10 floor is the known finding F12, anything else a violation
     if not close(ret, gdraw, 1e-15):
-        if gdraw < FLOOR and close(ret, FLOOR, 1e-15):
-            ctx.stat("floor_hit")
+        if gdraw < FLOOR and gdraw <= ret <= FLOOR * (1 + 1e-15):
+            ctx.stat("floor_hit")  # a floor at or below 1e-10 (F12; the model pins its exact value)
         else:
             ctx.oracle_fail(case, tag + "returned value is not the Gamma draw", SITE, {"kind": "post-processing"}, {"draw": gdraw, "ret": ret})
     if math.isfinite(r_true) and 0 <= pi < 1 and sh - bern > 0:
@@ -303,11 +316,22 @@ def check_sample(ctx, case):
         if case.get("g") is not None:
             forced["gamma"] = case["g"]
     log = []
-    with recording(log, forced):
-        ret = sampler.sample(alpha, K, n)
     ctx.stat("K0" if K == 0 else ("K1" if K == 1 else "K>=2"))
+    try:
+        with recording(log, forced):
+            ret = sampler.sample(alpha, K, n)
+    except Exception as e:  # the real code crashed on an input inside the property's quantifier
+        ctx.oracle_fail(case, f"sample() raised {type(e).__name__}: {e}"[:300], SITE, {"kind": "exception", "type": type(e).__name__},
+                        {"draws_so_far": [(r.get("dist"), [float(x) for x in r.get("args", ())]) for r in log]})
+        ctx.done(case, nontrivial=(K >= 1))
+        return
     if not (isinstance(ret, (float, np.floating)) and math.isfinite(ret) and ret > 0):
-        ctx.oracle_fail(case, "sample() returned a non-positive or non-finite value", SITE, {"kind": "value-range"}, {"ret": repr(ret)})
+        if K == 0:
+            # outside the property's quantifier (1 <= K <= n): the prior branch has no floor and gamma.rvs(0.01, scale=100)
+            # underflows to 0.0 about once in 2000 calls (pinned in corpus/C13); recorded, reported, not judged by C13
+            ctx.stat("K0_returned_zero")
+        else:
+            ctx.oracle_fail(case, "sample() returned a non-positive or non-finite value", SITE, {"kind": "value-range"}, {"ret": repr(ret)})
     judge_sample(ctx, case, a, b, alpha, K, n, log, float(ret), rng)
     ctx.done(case, nontrivial=(K >= 1), sample={k: case[k] for k in ("kind", "a", "b", "alpha", "K", "n")})
 
@@ -356,7 +380,11 @@ def check_update(ctx, case):
     cur = alpha0
     for rnd_no in range(2 if case.get("twice") else 1):
         before = extract(tree)
-        prun.update_concentration_value(rec, tree, tree_dist)
+        try:
+            prun.update_concentration_value(rec, tree, tree_dist)
+        except Exception as e:
+            ctx.oracle_fail(case, f"update_concentration_value raised {type(e).__name__}: {e}"[:300], SITE_UPD, {"kind": "exception", "type": type(e).__name__})
+            break
         if len(rec.calls) != rnd_no + 1:
             ctx.oracle_fail(case, "update_concentration_value did not call sample() exactly once", SITE_UPD, {"kind": "call-count"})
             break
@@ -372,6 +400,12 @@ def check_update(ctx, case):
             ctx.oracle_fail(case, "old value passed is not the value in force", SITE_UPD, {"kind": "old-value"}, {"passed": c["old"], "in_force": cur})
         new = float(c["ret"])
         judge_sample(ctx, case, case["a"], case["b"], float(c["old"]), c["K"], c["n"], c["log"], new, rng, tag="update: ")
+        if not (math.isfinite(new) and new > 0):
+            if c["K"] == 0:
+                ctx.stat("K0_returned_zero")
+            else:
+                ctx.oracle_fail(case, "sample() returned a non-positive or non-finite value", SITE, {"kind": "value-range"}, {"ret": repr(new)})
+            break
         # the new value is in force on the shared prior object ...
         if tree_dist.prior is not prior_obj:
             ctx.stat("prior_object_replaced")
@@ -438,6 +472,16 @@ def check_chain(ctx, case):
         with contextlib.redirect_stdout(io.StringIO()):
             res = prun.run_phyclone_chain(case["burnin"], case["update"], case["alpha0"], ds.real, 1e9, case["iters"], case["particles"], 1, 1,
                                           op, 1000, case["proposal"], 0.5, rng, ["s0"], case["thin"], 0, case["subtree"])
+    except Exception as e:
+        import traceback
+        tb = traceback.format_exc()
+        in_conc = "concentration.py" in tb or "update_concentration_value" in tb
+        if in_conc:
+            ctx.oracle_fail(case, f"chain raised {type(e).__name__} inside the concentration update: {e}"[:300], SITE_LOOP, {"kind": "exception", "type": type(e).__name__})
+        else:  # a crash elsewhere in the chain is C19's business; recorded, not judged here
+            ctx.stat("chain_crashed_elsewhere")
+        ctx.done(case, nontrivial=False)
+        return
     finally:
         pconc.GammaPriorConcentrationSampler.sample = real_sample
         prun.update_concentration_value = real_update
@@ -460,6 +504,13 @@ def check_chain(ctx, case):
             ctx.corr_fail(case, "the chain's concentration sampler does not use the chain's generator", None)
         judge_sample(ctx, case, c["a"], c["b"], float(c["old"]), c["K"], c["n"], c["log"], float(c["ret"]), c["rng"], tag="chain: ")
         cur = float(c["ret"])
+        if not (math.isfinite(cur) and cur > 0):
+            if c["K"] == 0:
+                ctx.stat("K0_returned_zero")
+            else:
+                ctx.oracle_fail(case, "sample() returned a non-positive or non-finite value", SITE, {"kind": "value-range"}, {"ret": repr(cur)})
+            ctx.done(case, nontrivial=False)
+            return
         if not close(u["alpha_after"], cur, 1e-15) or not abs(u["log_alpha_after"] - math.log(cur)) <= 1e-12:
             ctx.oracle_fail(case, "prior.alpha / log_alpha after the update are not the sampled value and its log", SITE_UPD, {"kind": "alpha-not-assigned"})
     # every trace entry: alpha recorded = the value in force, and log_p_one was computed with it
@@ -497,6 +548,41 @@ def check_chain(ctx, case):
             break
         ctx.stat("trace_entries_recomputed")
     ctx.done(case, nontrivial=bool(case["update"]), sample={k: case[k] for k in ("kind", "update", "iters", "thin", "proposal")})
+
+
+# ------------------------------------------------------------------------------- invariance, end to end
+def target_cdf(a, b, K, n):
+    """grid and CDF of p(alpha | K, n) ~ alpha^(a+K-1) exp(-b alpha) Gamma(alpha)/Gamma(alpha+n) (property text: the
+    conditional posterior of the concentration given K and n), by trapezoid on a log-spaced grid"""
+    x = np.exp(np.linspace(math.log(1e-9), math.log(400.0 / b + 50.0 * (a + K)), 40001))
+    lp = (a + K - 1) * np.log(x) - b * x + gammaln(x) - gammaln(x + n)
+    w = np.exp(lp - lp.max()) * x  # density in log x
+    c = np.concatenate([[0.0], np.cumsum(0.5 * (w[1:] + w[:-1]) * np.diff(np.log(x)))])
+    return x, c / c[-1]
+
+
+def check_invariance(ctx, case):
+    """Direct oracle of the property's claim itself: alpha ~ target, one real update, result ~ target
+    (Kolmogorov-Smirnov, i.i.d. pairs; deterministic given the case's seed; a >= 1 keeps the floor out of it)."""
+    a, b, K, n, N = case["a"], case["b"], case["K"], case["n"], case["N"]
+    rng = np.random.default_rng(case["seed"])
+    x, cdf = target_cdf(a, b, K, n)
+    starts = np.interp(rng.random(N), cdf, x)
+    sampler = pconc.GammaPriorConcentrationSampler(a, b, rng)
+    try:
+        outv = np.sort(np.array([sampler.sample(float(s0), K, n) for s0 in starts]))
+    except Exception as e:
+        ctx.oracle_fail(case, f"sample() raised {type(e).__name__}: {e}"[:300], SITE, {"kind": "exception", "type": type(e).__name__})
+        ctx.done(case, nontrivial=True)
+        return
+    F = np.interp(outv, x, cdf)
+    i = np.arange(1, N + 1)
+    D = float(max(np.max(i / N - F), np.max(F - (i - 1) / N)))
+    ctx.stat("invariance_ks_checked")
+    if D * math.sqrt(N) > 2.6:  # p < 3e-6 under the hypothesis
+        ctx.oracle_fail(case, f"one update applied to draws from p(alpha | K, n) does not return draws from it: KS D = {D:.4f}, N = {N}",
+                        SITE, {"kind": "invariance-ks"}, {"D": D, "sqrtN_D": D * math.sqrt(N)})
+    ctx.done(case, nontrivial=True, sample=case)
 
 
 # ------------------------------------------------------------------------------- search (oracle only)
